@@ -29,7 +29,9 @@ Lite(cps) ==
 Case(cps) ==
     LET n == Len(cps) IN
     Lite(cps) @@ [laws |-> IF Laws(cps) THEN 1 ELSE 0,
-                  sub  |-> [a \in 1..n + 1 |-> [z \in 1..n + 1 |-> IF a <= z THEN SubRef(cps, a - 1, z - 1) ELSE <<>>]]]
+                  (* the substring between two character offsets; nothing for an inverted range; end -1 = up to the end *)
+                  sub  |-> [a \in 1..n + 1 |-> [z \in 1..n + 1 |-> IF a <= z THEN SubRef(cps, a - 1, z - 1) ELSE <<>>]],
+                  subend |-> [a \in 1..n + 1 |-> SubRef(cps, a - 1, n)]]
 (* longer strings: the same fields without the quadratic tables *)
 CaseLite(cps) == Lite(cps)
 
